@@ -48,6 +48,9 @@ Next ==
                ELSE IF ev.exc # "" THEN Reject("Applicable", ev.m \o ":" \o ev.exc, l + 1)
                ELSE Adv(O!Apply(Rec.family, st, <<ev.m, ev.v>>))
           ELSE IF ev.abs # st THEN Reject("TwinBinding", "observe", l)
+               \* (a state that does not determine the network has no twin: nothing may have been compared)
+               ELSE IF ~O!Observable(st) THEN (IF DOMAIN ev.obs = {} /\ DOMAIN ev.twin = {} THEN Adv(st)
+                                               ELSE Reject("TwinBinding", "observation in an undetermined state", l))
                ELSE IF ev.stale # <<>> THEN Reject("NoStaleHit", JoinSet({ev.stale[k] : k \in 1..Len(ev.stale)}), l)
                ELSE LET bad == BadNames(ev) IN
                     IF bad # {} THEN Reject("Functional", JoinSet(bad), l) ELSE Adv(st)
